@@ -286,20 +286,20 @@ def main(chk):
     rng = chk.rng
     cases = []
     cid = 0
-    for i in range(chk.pick(20, 300)):
+    for i in range(chk.pick(50, 300)):
         libseed = rng.randrange(1 << 30)
         for cfg in (CONFIGS if not chk.quick() else rng.sample(CONFIGS, 5)):
             cid += 1
             cases.append(dict(id=cid, libseed=libseed, cfg=cfg, size=0.8))
     # signatures whose 24-bit hashes collide (the name of an already recorded wrapper must not change)
-    for i in range(chk.pick(12, 200)):
+    for i in range(chk.pick(30, 200)):
         cid += 1
         cases.append(dict(id=cid, libseed=rng.randrange(1 << 30), collide=rng.choice([2, 3, 4, 6]),
                           cfg=rng.choice([["-c", "-fnames"], ["-c", "-python", "-fnames"], ["-python", "-fnames"],
                                           ["-c", "-fnames", "-unique-names"]])))
     # hand-shaped adversarial libraries (keyword names, char buffers, abstract hierarchies whose derived classes only
     # hide a pure virtual): the closure rules are the same
-    for i in range(chk.pick(8, 80)):
+    for i in range(chk.pick(24, 80)):
         cid += 1
         cases.append(dict(id=cid, libseed=rng.randrange(1 << 30), adv=True, cfg=rng.choice(CONFIGS)))
     chk.run_cases(__name__, cases)
